@@ -18,8 +18,8 @@ CONSTANTS
   FocusMax = 4
   FixO1 = TRUE
   FixRetry = TRUE
-  FixRetryList = FALSE
+  FixRetryList = TRUE
   MaxTried = 64
-INVARIANTS Q1Guard Q1b Q1r Q2 Q3 Q4 Q5 PickIsDoc ViewsAgree GridOK
+INVARIANTS Q1 Q1b Q1r Q2 Q3 Q4 Q5 PickIsDoc ViewsAgree GridOK
 VIEW GenView
 CHECK_DEADLOCK FALSE
